@@ -269,7 +269,7 @@ def equal(interp, a, b):
         raise Undecided('class name compared with %r' % (other,))
     if isinstance(a, SymConst) or isinstance(b, SymConst):
         c, other = (a, b) if isinstance(a, SymConst) else (b, a)
-        if other is Ellipsis:
+        if other is Ellipsis or (isinstance(other, Native) and other.py is Ellipsis):
             return c.kind == 8
         if isinstance(other, str):
             return z3.And(c.kind == 6, c.strval == z3.StringVal(other))
